@@ -110,8 +110,13 @@ def check_bs(case) -> Outcome:
     oob = (x < lo) | (x > hi)
     has_oob = bool(np.nansum(oob))
     state = {}
+    xin = x
+    if case.get("as_int") and not np.isnan(x).any() and np.all(x == np.round(x)):
+        # the same values handed over with an integer dtype (bounds and knots stay non-integers)
+        xin = x.astype(np.int64)
+        out.label("integer-dtype-input")
     try:
-        res = bs(x, _state=state, **kwargs)
+        res = bs(xin, _state=state, **kwargs)
     except ValueError as e:
         if mode == "raise" and has_oob:
             out.label("raise-ok")
@@ -217,7 +222,11 @@ def check_bs(case) -> Outcome:
         if mode == "raise":
             xf = np.clip(xf, lo, hi)
         st2 = {kk: (list(v) if isinstance(v, list) else v) for kk, v in state.items()}
-        res2 = bs(xf, _state=st2, **kwargs)
+        xfin = xf
+        if case.get("as_int") and mode != "raise" and abs(hi) < 1e9 and abs(lo) < 1e9:
+            xf = np.round(xf)
+            xfin = xf.astype(np.int64)
+        res2 = bs(xfin, _state=st2, **kwargs)
         if st2 != state:
             out.fail("bs-state-changed-on-reuse", f"{kwargs}: {state} -> {st2}", **feat)
         compare(as_matrix(res2, len(xf)), xf, "follow-up")
@@ -232,6 +241,7 @@ def gen_bs():
             "n": st.integers(5, 60),
             "dist": st.sampled_from(["uniform", "uniform", "normal", "offset", "tight", "tiny"]),
             "round": st.sampled_from([None, None, 0, 1]),
+            "as_int": st.booleans(),
             "nan": st.one_of(st.just([]), st.just([]), st.lists(st.integers(0, 59), max_size=3)),
             "degree": st.integers(0, 5),
             "include_intercept": st.booleans(),
